@@ -13,6 +13,7 @@ mod router;
 mod size;
 mod smoke;
 mod streams;
+mod teardown;
 mod timeouts;
 mod tls;
 mod tower;
@@ -37,6 +38,9 @@ fn main() -> anyhow::Result<()> {
     let prop = a[1].clone();
     if std::env::var("RUST_LOG").is_ok() {
         tracing_subscriber::fmt().with_env_filter(tracing_subscriber::EnvFilter::from_default_env()).with_writer(std::io::stderr).init();
+    }
+    if prop == "C08-child" {
+        teardown::child(&a);
     }
     if prop == "smoke" {
         return smoke::run();
